@@ -1658,9 +1658,13 @@ class PCE500Emulator:
             self.keyboard.load_state(keyboard_state)
 
         reg_values = _unpack_register_bytes(registers_blob)
-        temps = {
-            int(key): int(value) for key, value in (metadata.get("temps") or {}).items()
-        }
+        temps = {}
+        for key, value in (metadata.get("temps") or {}).items():
+            # The Rust core names the scratch registers "TEMP<n>"; Python uses "<n>".
+            name = str(key)
+            if name.upper().startswith("TEMP"):
+                name = name[4:]
+            temps[int(name)] = int(value)
         snapshot = CPURegistersSnapshot(
             pc=reg_values["pc"],
             ba=reg_values["ba"],
